@@ -59,11 +59,13 @@ func parseEvalOpts(s string) evalOpts {
 // relative to evaluation progress" become enumerable.
 type countingCtx struct {
 	context.Context
-	left int
+	left  int
+	fired bool // the budget ran out during this input: what the run did then depends on HOW the steps were spent
 }
 
 func (c *countingCtx) Err() error {
 	if c.left <= 0 {
+		c.fired = true
 		return context.DeadlineExceeded
 	}
 	c.left--
@@ -183,7 +185,14 @@ func evalRun(input string) string {
 			if i > 0 {
 				sb.WriteByte('/')
 			}
-			sb.WriteString(evalInput(s, out, t, o))
+			r := evalInput(s, out, t, o)
+			if r != "P" {
+				// t=1: the step budget was exhausted during this input.  A cache hit or a register saves steps, so
+				// the configurations are cut at different points: such a case says nothing about C01/C04/C05.
+				cc, _ := s.Context.(*countingCtx)
+				r += ";t=" + b2s(cc != nil && cc.fired)
+			}
+			sb.WriteString(r)
 		}
 	}
 	eval.VerifCacheOff = false
